@@ -108,7 +108,12 @@ class RealVM:
         mark = w.mark()
         w.fail_at = {w.serial + k for k in st.get('fail_at', [])}
         try:
-            if t == 'call':
+            if t == 'call' and st.get('two_phase'):
+                # the two-phase form CacheColumns uses: the hash first, the value later from the state of the hash phase
+                _, state = g.get_hash(*[env[k] for k in sig])
+                v = g.get_value(*state)
+                r = {'ok': val_to_json(v, w)}
+            elif t == 'call':
                 v = g(**{k: env[k] for k in sig})
                 r = {'ok': val_to_json(v, w)}
             else:
